@@ -74,6 +74,48 @@ type w2chainRec struct {
 	// option codes of the upstream OPT that belongs to THIS query's own exchange
 	// (nil: the foreground path had no upstream reply, e.g. a cache hit)
 	UpCodes map[uint16]bool
+	StartAt, EndAt time.Duration // the chain run
+}
+
+// w2upReply: what one upstream reply carried. Every upstream reply embeds its
+// nonce in its records (address bytes, TXT text, SOA serial), so the response a
+// chain run leaves can be traced to the upstream reply it came from without
+// asking the code under test.
+type w2upReply struct {
+	Codes map[uint16]bool
+	At    time.Duration
+}
+
+// w2nonceOf extracts the upstream reply nonce from a response (0 = none).
+func w2nonceOf(m *dns.Msg) int {
+	if m == nil {
+		return 0
+	}
+	for _, rr := range m.Answer {
+		switch x := rr.(type) {
+		case *dns.A:
+			if ip := x.A.To4(); ip != nil && ip[0] == 100 {
+				return int(ip[1])<<8 | int(ip[2])
+			}
+		case *dns.AAAA:
+			if ip := x.AAAA.To16(); ip != nil && ip[0] == 0xfd && ip[1] == 0x01 {
+				return int(ip[12])<<8 | int(ip[13])
+			}
+		case *dns.TXT:
+			n := 0
+			if len(x.Txt) > 0 {
+				if _, err := fmt.Sscanf(x.Txt[0], "n%d-", &n); err == nil && n > 0 {
+					return n
+				}
+			}
+		}
+	}
+	for _, rr := range m.Ns {
+		if x, ok := rr.(*dns.SOA); ok && x.Mbox == "nonce.test." {
+			return int(x.Serial)
+		}
+	}
+	return 0
 }
 
 type w2upq struct {
@@ -99,6 +141,8 @@ type w2cfg struct {
 	queries  []*w2query
 	chain    map[string]*w2chainRec
 	upqs     []*w2upq
+	upReplies map[int]*w2upReply
+	upNonce  int
 	caches   []*cacheplug.Cache
 	closers  []func()
 	pMalformed int
@@ -154,9 +198,9 @@ func w2GenRules(r *simrt.Rand, c *w2cfg) []sequence.RuleArgs {
 		}
 		var w []int
 		if c.mode == "C15" {
-			w = []int{4, 1, 1, 1, 1, 3, 1, 4, 4, 0, 1, 1, 1}
+			w = []int{4, 1, 1, 1, 2, 3, 1, 4, 4, 0, 1, 1, 1, 2}
 		} else {
-			w = []int{4, 3, 2, 2, 2, 2, 2, 1, 1, 1, 1, 1, 1}
+			w = []int{4, 3, 2, 2, 2, 2, 2, 1, 1, 1, 1, 1, 1, 1}
 		}
 		switch r.Weighted(w...) {
 		case 0:
@@ -197,6 +241,10 @@ func w2GenRules(r *simrt.Rand, c *w2cfg) []sequence.RuleArgs {
 			}
 		case 11:
 			ra.Exec = "$fb"
+		case 13:
+			// a forwarder in the middle of the chain: what it sets may be replaced
+			// by a later rule (local answer, second forward)
+			ra.Exec = "$fwd"
 		default:
 			ra.Exec = "ecs 1.2.3.4"
 			c.ecsAny = true
@@ -292,19 +340,26 @@ func (c *w2cfg) serveUpstream(rc *RunCtx, up int, network string) func(sc *simne
 				nrec = 0
 			}
 			ttl := []uint32{0, 1, 30, 300, 3600}[simrt.Choose(5)]
+			c.upNonce++
+			nonce := c.upNonce & 0xffff
 			for i := 0; i < nrec; i++ {
 				switch q.Question[0].Qtype {
 				case dns.TypeA:
-					r.Answer = append(r.Answer, &dns.A{Hdr: dns.RR_Header{Name: name, Rrtype: dns.TypeA, Class: dns.ClassINET, Ttl: ttl}, A: net.IPv4(10, byte(up), byte(i), 1)})
+					r.Answer = append(r.Answer, &dns.A{Hdr: dns.RR_Header{Name: name, Rrtype: dns.TypeA, Class: dns.ClassINET, Ttl: ttl}, A: net.IPv4(100, byte(nonce>>8), byte(nonce), byte(i))})
 				case dns.TypeAAAA:
-					r.Answer = append(r.Answer, &dns.AAAA{Hdr: dns.RR_Header{Name: name, Rrtype: dns.TypeAAAA, Class: dns.ClassINET, Ttl: ttl}, AAAA: net.ParseIP(fmt.Sprintf("fd00::%d:%d", up, i))})
+					r.Answer = append(r.Answer, &dns.AAAA{Hdr: dns.RR_Header{Name: name, Rrtype: dns.TypeAAAA, Class: dns.ClassINET, Ttl: ttl}, AAAA: net.ParseIP(fmt.Sprintf("fd01::%x:%x", nonce, i))})
 				default:
-					r.Answer = append(r.Answer, &dns.TXT{Hdr: dns.RR_Header{Name: name, Rrtype: dns.TypeTXT, Class: dns.ClassINET, Ttl: ttl}, Txt: []string{fmt.Sprintf("up%d-%d-%s", up, i, strings.Repeat("x", simrt.Choose(60)))}})
+					r.Answer = append(r.Answer, &dns.TXT{Hdr: dns.RR_Header{Name: name, Rrtype: dns.TypeTXT, Class: dns.ClassINET, Ttl: ttl}, Txt: []string{fmt.Sprintf("n%d-up%d-%d-%s", nonce, up, i, strings.Repeat("x", simrt.Choose(60)))}})
 				}
 			}
-			if simrt.Choose(3) == 0 {
-				r.Ns = append(r.Ns, &dns.SOA{Hdr: dns.RR_Header{Name: "test.", Rrtype: dns.TypeSOA, Class: dns.ClassINET, Ttl: ttl}, Ns: "ns.test.", Mbox: "m.test.", Serial: 1, Refresh: 1, Retry: 1, Expire: 1, Minttl: 60})
+			if simrt.Choose(3) == 0 || nrec == 0 {
+				r.Ns = append(r.Ns, &dns.SOA{Hdr: dns.RR_Header{Name: "test.", Rrtype: dns.TypeSOA, Class: dns.ClassINET, Ttl: ttl}, Ns: "ns.test.", Mbox: "nonce.test.", Serial: uint32(nonce), Refresh: 1, Retry: 1, Expire: 1, Minttl: 60})
 			}
+			upr := &w2upReply{Codes: map[uint16]bool{}}
+			if c.upReplies == nil {
+				c.upReplies = map[int]*w2upReply{}
+			}
+			c.upReplies[nonce] = upr
 			if simrt.Choose(3) != 0 {
 				o := new(dns.OPT)
 				o.Hdr.Name, o.Hdr.Rrtype = ".", dns.TypeOPT
@@ -325,6 +380,9 @@ func (c *w2cfg) serveUpstream(rc *RunCtx, up int, network string) func(sc *simne
 					o.SetDo()
 				}
 				r.Extra = append(r.Extra, o)
+				for _, op := range o.Option {
+					upr.Codes[op.Option()] = true
+				}
 				if simrt.Choose(4) == 0 {
 					// RFC 6891 does not require the OPT to be the last additional record
 					r.Extra = append(r.Extra, &dns.A{Hdr: dns.RR_Header{Name: "glue.test.", Rrtype: dns.TypeA, Class: dns.ClassINET, Ttl: ttl}, A: net.IPv4(10, 3, 3, 3)})
@@ -341,6 +399,7 @@ func (c *w2cfg) serveUpstream(rc *RunCtx, up int, network string) func(sc *simne
 				r.Truncate(1232)
 				out, _ = r.Pack()
 			}
+			upr.At = simrt.S.Elapsed()
 			sc.WriteMsg(out, nil)
 		}
 	}
@@ -359,8 +418,9 @@ func w2key(addr netip.Addr, id uint16) string { return fmt.Sprintf("%s#%d", addr
 func (e *w2recorder) Exec(ctx context.Context, qCtx *query_context.Context) error {
 	orig := qCtx.QQuestion()
 	id := qCtx.Q().Id
+	t0 := simrt.S.Elapsed()
 	err := e.seq.Exec(ctx, qCtx)
-	rec := &w2chainRec{Err: err, OrigQ: orig, ID: id}
+	rec := &w2chainRec{Err: err, OrigQ: orig, ID: id, StartAt: t0, EndAt: simrt.S.Elapsed()}
 	if r := qCtx.R(); r != nil {
 		rec.Resp = r.Copy()
 		// layer 2: whatever the chain leaves carries the query's ID and question
@@ -906,10 +966,18 @@ func (c *w2cfg) checkC15client(rc *RunCtx, wq *w2query) {
 	}
 	for _, op := range o.Option {
 		code := op.Option()
-		// An option may reach the client only from the upstream reply of this
-		// query's own exchange ...
-		if rec == nil || !rec.UpCodes[code] {
-			rc.Fail("foreign_option_in_reply", "reply OPT carries option %d, but the upstream reply of this query's own exchange had no such option (cache hit / other exchange): %s", code, c.desc(wq))
+		// An option may reach the client only from the upstream reply that the
+		// response this chain run left came from, received during this run (the
+		// reply is identified by the nonce in its records, not by asking the
+		// query context) ...
+		var own *w2upReply
+		if rec != nil {
+			if u := c.upReplies[w2nonceOf(rec.Resp)]; u != nil && u.At >= rec.StartAt && u.At <= rec.EndAt {
+				own = u
+			}
+		}
+		if own == nil || !own.Codes[code] {
+			rc.Fail("foreign_option_in_reply", "reply OPT carries option %d, but the response returned to this query did not come from an upstream reply of its own exchange carrying that option (cache hit, locally made or replaced response, other exchange): %s", code, c.desc(wq))
 			return
 		}
 		// ... and only if a configured plugin forwards it explicitly:
